@@ -127,6 +127,8 @@ def main(argv=None):
         fn["loops_closed_by_contract"] = len(spec.loops)
         if spec.bounded:
             bounded.append({"function": spec.function, "bound": spec.bounded})
+        if getattr(spec, 'restricted', None):
+            bounded.append({"function": spec.function, "bound": "RESTRICTED DOMAIN (not a proof for all inputs): " + spec.restricted})
         for e in r["meta"]["lowering_log"]:
             if "dropped" in e:
                 dropped.append({"function": spec.function, **e})
